@@ -6,14 +6,17 @@
    environment prompt or stalled afterwards); the driver realises each one on an in-process MOSN with HTTP/1.1,
    HTTP/2 and bolt clients, calls what SIGTERM runs at exactly that point and records driver + hook events; TLC
    validates every recorded run against ShutdownTrace.  Thorough tier: the same signal points against the real
-   binary with real SIGTERM and SIGHUP (process-level traces validated against UpgradeTrace)."""
+   binary with real SIGTERM and SIGHUP (process-level traces validated against UpgradeTrace).
+   spec/server/Handover.tla (+Trace): one connection at byte granularity through the hot-upgrade hand-over inside one
+   process (two server instances, real TransferServer), incl. the new instance's listener lookup for every way of
+   writing the listener address x address family of the client."""
 import concurrent.futures, json, os, random, re, shutil, subprocess, tempfile, time
 import vlib
 
 LEVEL = "model_checking"
 PROTOS = ("http1", "bolt", "http2")
 HANDOVER_DEFECTS = ("BufferNotShipped", "NewDropsBuffered", "CloseFlagReset", "LostReplyAfterMove", "ReplyTwice", "ExitBeforeTransfer",
-                    "ForwardedResponseConsumesRoute")
+                    "ForwardedResponseConsumesRoute", "LookupOwnFamilyWildcard", "LookupLocalOnly", "PublishedBeforeComplete")
 UPGRADE_DEFECTS = ("StopBeforeNewAccepts", "BufferNotShipped", "BufferShippedTwice", "ExitBeforeTransfer", "NewClosesInherited")
 DEFECTS = ("PartialNotCounted", "WrittenNotCounted", "WrongGauge", "DrainBeforeClose", "CloseOnGoAway", "NoDrainTimeout")
 
@@ -173,13 +176,17 @@ def sigterm_sig(kind, runev, rt, idx):
 
 
 def handover_sig(kind, runev, rt, idx):
-    return ["C11:handover:%s:%s:phase=%s" % (runev.get("proto"), kind, runev.get("phase"))]
+    sig = "C11:handover:%s:%s:phase=%s" % (runev.get("proto"), kind, runev.get("phase"))
+    if (runev.get("bind", "ip4"), runev.get("via", "ip4")) != ("ip4", "ip4"):
+        # how the listener address is written / over which family the client reached it is part of the failing input class
+        sig += ":listen=%s:client=%s" % (runev.get("bind"), runev.get("via"))
+    return [sig]
 
 
 def handover_part(ctx, binary, rnd):
     """Hot-upgrade hand-over inside one process: cases enumerated by TLC from Handover.tla, real transfer machinery."""
     ctx.add_tlc(vlib.run_tlc(ctx, "server", "Handover", "Handover.cfg", timeout=600))
-    with concurrent.futures.ThreadPoolExecutor(max_workers=7) as ex:
+    with concurrent.futures.ThreadPoolExecutor(max_workers=len(HANDOVER_DEFECTS)) as ex:
         futs = {d: ex.submit(vlib.run_tlc, ctx, "server", "Handover", "Handover_defect_%s.cfg" % d, workers=2, expect_ok=False) for d in HANDOVER_DEFECTS}
         for d, f in futs.items():
             if f.result()["ok"]:
@@ -190,6 +197,8 @@ def handover_part(ctx, binary, rnd):
     for c in vlib.read_jsonl(raw):
         if c["inflight"] < 2:
             c["order"] = "fifo"         # the order of the answers only exists with two or more requests in flight
+        if c["proto"] != "bolt" or c["inflight"] == 0 or c["resp"]:
+            c["release"] = "moved"      # an answer can only wait for a socket on its way if the connection moves and a request waits
         key = json.dumps(c, sort_keys=True)
         if key not in seen:
             seen.add(key)
@@ -198,14 +207,21 @@ def handover_part(ctx, binary, rnd):
     for i, c in enumerate(cases):
         c["id"] = i + 1
     t0 = time.time()
-    traces, results = run_shards(ctx, binary, "handover", cases, 2, timeout=600)
+    traces, results = run_shards(ctx, binary, "handover", cases, 4, timeout=600)
     vlib.log("[c11] %d in-process hand-over runs in %.1fs" % (len(results), time.time() - t0))
+    unreachable = sorted(set(r["unreachable"] for r in results if r.get("unreachable")))
+    if unreachable:
+        ctx.notes.append("hand-over: listener address / client family combinations this machine cannot produce, not driven: %s" % unreachable)
+    results = [r for r in results if not r.get("unreachable")]
+    if not any(c["bind"] in ("any4", "any6") for c in cases if ("%s/%s" % (c["bind"], c["via"])) not in unreachable):
+        raise vlib.Inconclusive("hand-over: no wildcard listener could be driven on this machine")
     check_abandoned(ctx, results, "hand-over")
     evs = validate(ctx, traces, "HandoverTrace", handover_sig, "handover")
     for need in ("stopseen", "transfer", "transfer.new", "new"):
         if not any(e["ev"] == need for e in evs):
             raise vlib.Inconclusive("no %s event recorded: the verif hooks of the connection transfer are missing in %s" % (need, vlib.REPO))
     ctx.cov["handover_cases"] = len(cases)
+    ctx.cov["handover_listener_address_x_client"] = sorted(set("%s/%s" % (c["bind"], c["via"]) for c in cases) - set(unreachable))
     ctx.cov["distinct_nontrivial"] = ctx.cov.get("distinct_nontrivial", 0) + sum(1 for c in cases if c["inflight"] or c["cut"])
 
 
@@ -251,9 +267,12 @@ def run(ctx):
                        "in {idle,hdr,body,wait,resp}, connections interchangeable) x environment mode (prompt / stalled until exit) x "
                        "protocol (HTTP/1.1, bolt, HTTP/2), realised on a live in-process MOSN; plus one hand-over case of Handover.tla = protocol "
                        "(bolt, HTTP/1.1) x requests in flight when the old instance is told to hand over (bolt multiplexed: 0..3 written, answered by the "
-                       "upstream only after the move, one at a time, in order or reversed) x next request cut {no, inside fixed head / header block / "
+                       "upstream only after the move, one at a time, in order or reversed; the first of them also while the socket is on its way "
+                       "between the instances) x next request cut {no, inside fixed head / header block / "
                        "body} x response partly written x completed requests 0..1 x what follows {rest + further "
-                       "request, client close}, realised with two server instances and the real TransferServer in one process; "
+                       "request, client close} x how the listener address is written {127.0.0.1:p, 0.0.0.0:p, [::]:p, [::1]:p} x address family "
+                       "the client connects over {IPv4, IPv6} where the listener takes it (6 combinations; wildcard listeners are dual stack), "
+                       "realised with two server instances and the real TransferServer in one process; "
                        "non-trivial = at least one request in flight")
     ctx.cov["exhaustive"] = True
     ctx.assumptions += ["in-process tier: process exit is represented by the return of Mosn.Shutdown (the stage manager then only closes and exits); "
@@ -307,13 +326,27 @@ def proc_cases(points, rnd):
             hup.append(dict(proto=proto, sig="hup", mode="complete", conns={"c1": one(ph, 1), "c2": one("idle", 1)}))
         for ph in ("hdr", "body", "wait"):   # resumed only after the hand-over (resp would run into the 15 s write timeout)
             hup.append(dict(proto=proto, sig="hup", mode="late", conns={"c1": one(ph, 1), "c2": one("idle", 1)}))
+    # the address dimension of Handover.tla at process level: every upgrade trial has its listeners written in one of the four
+    # forms and its clients connecting over one of the two families; the six combinations rotate through the trials of a
+    # protocol, starting at a seed-dependent one (the new process must find the inherited listening socket and the listener
+    # of every handed-over connection by address)
+    for proto in PROTOS:
+        k = rnd.randrange(len(ADDR_COMBOS))
+        for i, c in enumerate(c for c in hup if c["proto"] == proto):
+            c["bind"], c["via"] = ADDR_COMBOS[(k + i) % len(ADDR_COMBOS)]
     return term, hup
+
+
+ADDR_COMBOS = (("ip4", "ip4"), ("any4", "ip4"), ("any4", "ip6"), ("any6", "ip4"), ("any6", "ip6"), ("ip6", "ip6"))
 
 
 def hup_sig(kind, runev, rt, idx):
     case = runev.get("case") or {}
     ph = ((case.get("conns") or {}).get("c1") or {}).get("ph")
-    return ["C11:sighup:%s:%s:mode=%s:phase=%s" % (runev.get("proto"), kind, runev.get("mode"), ph)]
+    sig = "C11:sighup:%s:%s:mode=%s:phase=%s" % (runev.get("proto"), kind, runev.get("mode"), ph)
+    if (runev.get("bind", "ip4"), runev.get("via", "ip4")) != ("ip4", "ip4"):
+        sig += ":listen=%s:client=%s" % (runev.get("bind"), runev.get("via"))
+    return [sig]
 
 
 def split_runs(traces, ctx):
@@ -363,5 +396,6 @@ def proc_tier(ctx, binary, points, rnd):
     ctx.cov["process_level"] = dict(sigterm_trials=len(term), sighup_trials=len(hup),
                                     short_lived_requests=sum(1 for e in evs if e["ev"] == "c.req" and e.get("kind") == "short"),
                                     long_lived_requests=sum(1 for e in evs if e["ev"] == "c.req" and e.get("kind") == "long"))
+    ctx.cov["process_level"]["sighup_listener_address_x_client"] = sorted(set("%s/%s" % (e.get("bind"), e.get("via")) for e in evs if e["ev"] == "run"))
     ctx.assumptions += ["process tier: graceful_timeout 3 s; 'late' upgrade runs resume the parked request 33 s after SIGHUP (after the transfer "
                         "window, before the old process leaves); the old process's exit status after an upgrade is recorded, not judged"]
